@@ -7,6 +7,7 @@
 
 #ifdef M4RI_VERIF
 extern void mzd_verif_header_cache_stats(int *blocks, int *slots_in_use);
+extern int mzd_verif_header_cache_capacity(void);
 #endif
 #if __M4RI_ENABLE_MMC
 extern mmb_t m4ri_mmc_cache[];
@@ -127,10 +128,10 @@ static void check_state(int deep) {
     mzd_verif_header_cache_stats(&blocks, &used);
 #if __M4RI_ENABLE_MZD_CACHE
     if (live > MAXLIVE) MAXLIVE = live;
-    /* beyond 16 blocks (1024 headers) headers come from plain malloc and stay outside the pool for their lifetime */
-    if (MAXLIVE < 64 * 16 ? used != live : (used > live || used > 64 * 16))
-      afail("header-count", "header pool reports %d slots in use, the shadow holds %d live matrices (max simultaneously live so far %d)", used, live, MAXLIVE);
-    if (live > 0 && blocks > (live + 63) / 64 + 16) afail("header-count", "%d header blocks for %d live matrices", blocks, live);
+    int cap = mzd_verif_header_cache_capacity();
+    /* beyond the pool's capacity headers come from plain malloc and stay outside the pool for their lifetime */
+    if (MAXLIVE < cap ? used != live : (used > live || used > cap))
+      afail("header-count", "header pool reports %d slots in use, the shadow holds %d live matrices (max simultaneously live so far %d, pool capacity %d)", used, live, MAXLIVE, cap);
     hx_tag("hdrblocks=%d", blocks > 16 ? 17 : blocks);
 #endif
   }
